@@ -91,10 +91,10 @@ Qed.
 (** * client queries *)
 
 Theorem K_query_sound q r :
-  check_case (CQuery q r) = [] -> utf8_all q = true -> forallb plain q = true ->
+  check_case (CQuery q r) = [] -> forallb plain q = true ->
   exists es el, r = ROk (es, el, q).
 Proof.
-  unfold check_case. intros H Hu Hp. rewrite Hu in H. cbn [negb] in H.
+  unfold check_case. intros H Hp.
   apply app_nil_inv in H as [_ H]. rewrite Hp in H.
   destruct r as [[[es el] idx]| |].
   - destruct (strs_eqb idx q) eqn:E.
